@@ -352,6 +352,8 @@ def oracle(c, results: list[dict], http: bool = False) -> list[dict]:
     for i, r in enumerate(results):
         now = r["now"]
         if "exc" in r or r.get("status", 200) != 200:
+            if http and not sym and start["utc"] > now:
+                continue          # a start that is still in the future is outside the accepted option sets: refused
             bad(i, "no live manifest for an accepted option set", detail=r.get("exc") or r.get("status"))
             continue
         ast, pub, tsbd, mup = r["ast"], r.get("pub"), r["tsbd"], r["mup"]
@@ -1112,6 +1114,8 @@ def canon_http(r: dict, renders_mup: bool) -> str:
 
 
 def canon_http_model(line: str, r: dict, renders_mup: bool) -> str:
+    if line == "refused":
+        return "status:404"       # ManifestNotAvailable: the stream has not started
     f = line.split()
     if len(f) != 8:
         return line
@@ -1138,7 +1142,7 @@ def evaluate_http(http: Http, cases, ch: Channel):
     lines, spans, mcs = [], [], []
     for c in cases:
         mc = http.model_case(c)
-        ls = driver_lines(mc)
+        ls = [l.replace("livetiming ", "servelive ", 1) for l in driver_lines(mc)]
         mcs.append(mc)
         spans.append((len(lines), len(ls)))
         lines += ls
@@ -1161,6 +1165,8 @@ def evaluate_http(http: Http, cases, ch: Channel):
                                      "case": human_http(c), "url": http.url(c),
                                      "before": list(map(str, snap)), "after": list(map(str, now_snap))})
             snap = now_snap
+        if any(m == "status:404" for m in mo):
+            ch.count("model:refused(start ahead of the clock)")
         if c.get("sdefaults"):
             ch.count("options_from_stream_defaults")
         if c.get("interleave"):
@@ -1269,6 +1275,34 @@ def defaults_http_cases(http: Http):
     return out
 
 
+AHEAD = [1, 250_000, 500_000, 999_999, US, US + 1, 2 * US]      # start − now, µs
+
+
+def ahead_http_cases(http: Http):
+    """explicit starts slightly in the FUTURE (1 µs … 2 s ahead of the clock) at five sub-second phases, through
+    every live template, the start given in the URL or by stored stream defaults; the second request one second
+    later sees some of them started.  The handler must refuse (404) exactly when the start truncated to a whole
+    second is after now (exact microseconds), and every 200 must satisfy the property"""
+    base = day_us(2024, 2, 29) + 43200 * US
+    out = []
+    k = 0
+    for name in sorted(http.manifests):
+        feats = http.manifests[name]
+        for ahead in AHEAD:
+            for ph in (0, 1, 250_000, 500_000, 999_999):
+                k += 1
+                n = base + (k % 50) * US + ph
+                start = {"utc": n + ahead, "off": OFFSETS[k % len(OFFSETS)]}
+                mup = [-1, "absent", 7][k % 3] if "minimumUpdatePeriod" in feats else "absent"
+                c = {"manifest": name, "nows": [n, n + US], "depth": ["absent", 30, None][k % 3], "mup": mup}
+                if k % 2:
+                    c.update(stream="bbb", sd=http.bbb_ref[0], ts=http.bbb_ref[1], start=start)
+                else:
+                    c.update(stream="tears", sd=960, ts=240, start=None, sdefaults={"start": start})
+                out.append(c)
+    return out
+
+
 def rollover_http_cases(ctx, http: Http):
     """sequences of real manifests across midnight / the first minute / month and year boundaries, for every
     template that renders publishTime: publishTime monotonicity and start stability on what is served"""
@@ -1301,7 +1335,9 @@ def ch_manifest(ctx) -> Channel:
         "tears, tears with synthetic timing references) under a controlled clock, URL-encoded start/depth/mup: "
         "MPD@availabilityStartTime (instant and offset), @publishTime, @timeShiftBufferDepth, "
         "@minimumUpdatePeriod vs the model, including 9-request sequences across midnight / 00:01:00 / month and year "
-        "boundaries for every start kind (publishTime monotonicity and start stability on served manifests), options "
+        "boundaries for every start kind (publishTime monotonicity and start stability on served manifests), explicit "
+        "starts 1 µs … 2 s AHEAD of the clock at five sub-second phases (URL and stream default; the model's started "
+        "guard `serveLive` predicts 404 vs 200 on exact microseconds), options "
         "taken from stored stream defaults / the URL / the server default, `start=` (empty), requests interleaved "
         "with other streams, vod mode and other option vectors, module/class level defaults snapshotted per case; "
         "non-trivial = explicit start given in the URL or a stream at most "
@@ -1312,7 +1348,8 @@ def ch_manifest(ctx) -> Channel:
         ch.errors.append(f"app boot: {type(e).__name__}: {e}")
         return ch
     rng = ctx.rng("manifest")
-    cases = fixed_http_cases(http) + defaults_http_cases(http) + rollover_http_cases(ctx, http) + [gen_http_case(rng, http) for _ in range(ctx.scale(600, 8000))]
+    cases = fixed_http_cases(http) + defaults_http_cases(http) + ahead_http_cases(http) + \
+        rollover_http_cases(ctx, http) + [gen_http_case(rng, http) for _ in range(ctx.scale(600, 8000))]
     try:
         evaluate_http(http, cases, ch)
     finally:
@@ -1565,7 +1602,7 @@ def search(ctx, disagreements):
                 return failure_record("chain", human_http(c), f, url=http.url(c))
         hseeds = [{k: v for k, v in d["case"].items() if k != "nows_iso"} for d in disagreements
                   if d.get("via") == "http" and "case" in d]
-        for c in hseeds + fixed_http_cases(http) + [gen_http_case(rng, http) for _ in range(ctx.scale(1500, 6000))]:
+        for c in hseeds + fixed_http_cases(http) + ahead_http_cases(http) + [gen_http_case(rng, http) for _ in range(ctx.scale(1500, 6000))]:
             http.prepare(c)
             f = unlisted(http_fails(http, c))
             if f:
